@@ -1,4 +1,5 @@
 import RsModel.Model.Tree
+import RsModel.Model.EqHash
 /-!
 # Line protocol (DESIGN Appendix C): parsing of requests, printing of responses.
 Strings are `x<hex>`, numbers decimal, lists length-prefixed, options `-` / `+ v`.
@@ -143,6 +144,14 @@ def showSResult (r : SResult) : String := s!"{r.info.line} {r.info.col} {showLis
 
 def showSMap (m : SMap) : String :=
   s!"{showText m.mappings} {showList showText m.sources} {showList showText m.sourcesContent} {showList showText m.names} {showOpt showText m.file} {showOpt showText m.sourceRoot} {showOpt showText m.debugId}"
+
+def showCall : HCall → String
+  | .bytes b => "b" ++ showText b
+  | .u8 n => s!"u8:{n}"
+  | .u32 n => s!"u32:{n}"
+  | .u64 n => s!"u64:{n}"
+  | .usize n => s!"us:{n}"
+  | .isize n => s!"is:{n}"
 
 def showBool (b : Bool) : String := if b then "1" else "0"
 
